@@ -27,6 +27,9 @@ func decodeElementInitValueVector(r *bytes.Reader) ([]wasm.Index, error) {
 		return nil, fmt.Errorf("get size of vector: %w", err)
 	}
 
+	if err := checkVectorSize(r, uint64(vs)); err != nil {
+		return nil, err
+	}
 	vec := make([]wasm.Index, vs)
 	for i := range vec {
 		u32, _, err := leb128.DecodeUint32(r)
@@ -46,6 +49,9 @@ func decodeElementConstExprVector(r *bytes.Reader, elemType wasm.RefType, enable
 	vs, _, err := leb128.DecodeUint32(r)
 	if err != nil {
 		return nil, fmt.Errorf("failed to get the size of constexpr vector: %w", err)
+	}
+	if err := checkVectorSize(r, uint64(vs)); err != nil {
+		return nil, err
 	}
 	vec := make([]wasm.Index, vs)
 	for i := range vec {
